@@ -409,5 +409,5 @@ def _strategy(ctx):
 
 
 SUBCHECKS = {
-    "doc": Sub("doc", check_doc, strategy=_strategy, examples={"quick": 500, "thorough": 3000}, describe=lambda c: c["svg"]),
+    "doc": Sub("doc", check_doc, strategy=_strategy, examples={"quick": 500, "thorough": 1500}, describe=lambda c: c["svg"]),
 }
